@@ -40,6 +40,9 @@ def make_objective(prog: dict, record: list | None = None):
         got = []
         path = proggen.walk(tree, trial, on_suggest=lambda node, v: got.append((node["name"], v)))
         vals = [proggen.path_value(path, meta, prog["salt"], k) for k in range(nobj)]
+        if prog.get("distinct"):
+            # pairwise-distinct values even when two trials receive the same parameters (premise of C13)
+            vals = [v + 1e-7 * (trial.number + 1) * (0.618 + 0.1 * k) for k, v in enumerate(vals)]
         if record is not None:
             record.append({"number": trial.number, "suggested": got})
         for step in range(prog["reports"]):
